@@ -358,6 +358,9 @@ func (r *Reader) decode2D() {
 // start (included) to end (excluded) are set to 1.  If fill is false,
 // existing bits are left unchanged.
 func (r *Reader) fillRowBits(start, end int, fill bool) {
+	// A row has Columns pixels: a run which a damaged (or hostile) code
+	// carries beyond the end of the row must not make the row longer.
+	end = min(end, r.Columns)
 	if start >= end {
 		return
 	}
